@@ -344,7 +344,9 @@ func record(h http.Handler, r reqSpec) wire {
 	}
 	rec := httptest.NewRecorder()
 	h.ServeHTTP(rec, req)
-	return wire{status: rec.Code, header: rec.Header(), body: rec.Body.Bytes()}
+	// the headers as they were when they were committed (first WriteHeader, Write or Flush):
+	// what a handler changes afterwards never reaches a client
+	return wire{status: rec.Code, header: rec.Result().Header, body: rec.Body.Bytes()}
 }
 
 func ctxOf(s respSpec, r reqSpec) string {
@@ -613,6 +615,16 @@ func TestC17Concurrent(t *testing.T) {
 		gone := rapid.Bool().Draw(t, "clients-going-away-mid-response")
 		if gone {
 			hx.Class("concurrent-workloads:with-clients-going-away")
+			// the clients that go away were being sent compressed responses of some size (every other
+			// handler): that is where the compressor has state to lose
+			filler := bytes.Repeat([]byte("the quick brown fox jumps over the lazy dog. "), 1+rapid.IntRange(20, 400).Draw(t, "filler"))
+			for g := 0; g < G; g += 2 {
+				reqs[g].acceptEncoding, reqs[g].accept = "gzip", ""
+				specs[g].contentType, specs[g].encoding, specs[g].status, specs[g].explicit = "text/html", "", 200, rapid.Bool().Draw(t, "explicit200")
+				specs[g].setLength = false
+				specs[g].chunks = append([][]byte{[]byte(fmt.Sprintf("[g%02d]", g))}, filler[:len(filler)/2], filler[len(filler)/2:])
+				specs[g].flushAt = rapid.SampledFrom([]int{-1, 1, 2}).Draw(t, "flushat-gone")
+			}
 		}
 		var wg sync.WaitGroup
 		var failed atomic.Value
